@@ -1,6 +1,25 @@
 // Copyright Amazon.com, Inc. or its affiliates. All Rights Reserved.
 // SPDX-License-Identifier: Apache-2.0
 
+// With `--cfg metrique_verif_loom` (verification builds only) the primitives below come from the
+// loom-visible facade and `std` / `tokio` paths in this file resolve to it as well.
+#[cfg(metrique_verif_loom)]
+use metrique_writer_core::__verif::{
+    park::{Parker, Unparker},
+    std_shim as std,
+    std_shim::{
+        sync::{
+            Arc,
+            atomic::{AtomicBool, Ordering},
+        },
+        thread,
+        time::{Duration, Instant},
+    },
+};
+#[cfg(metrique_verif_loom)]
+use {super::verif_queue::ArrayQueue, crate::verif_tokio as tokio};
+
+#[cfg(not(metrique_verif_loom))]
 use std::{
     sync::{
         Arc,
@@ -10,7 +29,9 @@ use std::{
     time::{Duration, Instant},
 };
 
+#[cfg(not(metrique_verif_loom))]
 use crossbeam_queue::ArrayQueue;
+#[cfg(not(metrique_verif_loom))]
 use crossbeam_utils::sync::{Parker, Unparker};
 use metrique_writer_core::{
     BoxEntrySink, EntryIoStream, IoStreamError, ValidationError, sink::FlushWait,
@@ -850,6 +871,94 @@ pub fn describe_sink_metrics<V: GlobalRecorderVersion + ?Sized>() {
 enum DrainResult {
     Drained,     // no entries left in the queue
     HitDeadline, // some entries left, but we're now past the deadline
+}
+
+/// Verification hook (`--cfg metrique_verif` only): lets a harness drive the real flush-waker
+/// state machine ([`WakerTracker`]) step by step with the calls the writer loop can make.
+#[cfg(metrique_verif)]
+#[doc(hidden)]
+pub mod __verif_waker {
+    use super::{DrainResult, FlushSignal, WakerTracker};
+    #[cfg(metrique_verif_loom)]
+    use super::{std, tokio};
+
+    /// what the drain loop reported
+    #[derive(Clone, Copy, Debug, PartialEq, Eq)]
+    pub enum Status {
+        Drained,
+        HitDeadline,
+    }
+
+    pub struct Handle {
+        tracker: WakerTracker,
+        sender: std::sync::mpsc::Sender<FlushSignal>,
+    }
+
+    /// the receiving side of one flush request
+    pub struct Request(tokio::sync::oneshot::Receiver<()>);
+
+    impl Request {
+        /// true once the request was completed (its sender dropped)
+        pub fn is_complete(&mut self) -> bool {
+            !matches!(
+                self.0.try_recv(),
+                Err(tokio::sync::oneshot::error::TryRecvError::Empty)
+            )
+        }
+    }
+
+    impl Default for Handle {
+        fn default() -> Self {
+            Self::new()
+        }
+    }
+
+    impl Handle {
+        pub fn new() -> Self {
+            let (sender, receiver) = std::sync::mpsc::channel();
+            Handle {
+                tracker: WakerTracker::new(receiver),
+                sender,
+            }
+        }
+
+        /// what `flush_async` does on the producer side
+        pub fn request_flush(&self) -> Request {
+            let (channel, receiver) = tokio::sync::oneshot::channel();
+            self.sender.send(FlushSignal { channel }).ok();
+            Request(receiver)
+        }
+
+        pub fn handle_waiting_wakers(
+            &mut self,
+            queue_capacity: usize,
+            flush_stream: impl FnOnce(),
+            status: Status,
+            entry_count: usize,
+        ) {
+            self.tracker.handle_waiting_wakers(
+                || queue_capacity,
+                flush_stream,
+                match status {
+                    Status::Drained => DrainResult::Drained,
+                    Status::HitDeadline => DrainResult::HitDeadline,
+                },
+                entry_count,
+            )
+        }
+
+        pub fn will_progress_on_drained_queue(&mut self) -> bool {
+            self.tracker.will_progress_on_drained_queue()
+        }
+
+        pub fn waiting(&self) -> usize {
+            self.tracker.waiting_wakers.len()
+        }
+
+        pub fn entries_before_wake(&self) -> usize {
+            self.tracker.entries_before_wake
+        }
+    }
 }
 
 #[cfg(test)]
